@@ -174,6 +174,29 @@ def check_c04(seed, tier):
                         'tid > %r' % future, 'tid %r' % tid2, cases)
     finally:
         w.close()
+    # the same histories on a MappingStorage (getTid / loadSerial / loadBefore / load / history / iterator)
+    from ZODB.MappingStorage import MappingStorage
+    for hi, hist in enumerate(histories(seed, 4 if tier == 'quick' else 40, tier)):
+        st = MappingStorage()
+        model = []
+        try:
+            for n, writes in enumerate(hist):
+                t = H.Txn()
+                st.tpc_begin(t, H.tid_of(n + 1))
+                d = {}
+                for oid, data in writes:
+                    cur = [tid for tid, dd in model if oid in dd]
+                    st.store(oid, cur[-1] if cur else z64, data, '', t)
+                    d[oid] = data
+                st.tpc_vote(t)
+                model.append((st.tpc_finish(t), d))
+                cases += 1
+                r = H.check_queries(st, model, 'MappingStorage history#%d' % hi)
+                if r:
+                    return fail({'storage': 'MappingStorage', 'history': repr(hist), 'after': len(model)},
+                                'model answer', r, cases)
+        finally:
+            st.close()
     return {'found': False, 'cases': cases}
 
 
